@@ -717,7 +717,121 @@ type PoolFacts struct {
 	Order      []string    // program order of the main goroutine's phases
 	WorkerSends []string   // channel sends inside the worker loop, in order
 	ContinueBeforeResult bool
+	NumWorkersNat int
+	Worker  []string // control shape of the worker function (see shape)
+	Sender  []string // control shape of the queueing loop
+	Status  []string // control shape of the status goroutine
+	Closer  []string // control shape of the closer goroutine
+	Collect []string // control shape of the collecting loop (channel operations only)
 }
+
+// shape translates a statement list into the sequence of its concurrency-relevant operations:
+// sends, receives, closes, wg calls, defers of those, and the control flow around them
+// (range/for/select/if with continue, break, return). Everything else is dropped.
+func shape(stmts []ast.Stmt) []string {
+	var out []string
+	for _, st := range stmts {
+		out = append(out, shapeStmt(st)...)
+	}
+	return out
+}
+
+func interestingCall(e ast.Expr) (string, bool) {
+	c, ok := e.(*ast.CallExpr)
+	if !ok {
+		if u, ok := e.(*ast.UnaryExpr); ok && u.Op == token.ARROW {
+			return "recv:" + src(u.X), true
+		}
+		return "", false
+	}
+	n := src(c.Fun)
+	switch {
+	case n == "close" && len(c.Args) == 1:
+		return "close:" + src(c.Args[0]), true
+	case strings.HasPrefix(n, "wg."):
+		return "call:" + src(c), true
+	case n == "panic" || n == "os.Exit" || n == "log.Fatal" || n == "log.Fatalf" || n == "runtime.Goexit":
+		return "abort:" + n, true
+	}
+	return "", false
+}
+
+func wrap(kind string, inner []string) []string {
+	if len(inner) == 0 {
+		return nil
+	}
+	return []string{kind + "[" + strings.Join(inner, " ") + "]"}
+}
+
+func shapeStmt(st ast.Stmt) []string {
+	switch s := st.(type) {
+	case *ast.SendStmt:
+		return []string{"send:" + src(s.Chan)}
+	case *ast.ExprStmt:
+		if t, ok := interestingCall(s.X); ok {
+			return []string{t}
+		}
+	case *ast.AssignStmt:
+		var out []string
+		for _, r := range s.Rhs {
+			if t, ok := interestingCall(r); ok {
+				out = append(out, t)
+			}
+		}
+		return out
+	case *ast.DeferStmt:
+		if t, ok := interestingCall(s.Call); ok {
+			return []string{"defer-" + t}
+		}
+	case *ast.BranchStmt:
+		return []string{s.Tok.String()}
+	case *ast.ReturnStmt:
+		return []string{"return"}
+	case *ast.GoStmt:
+		return []string{"go"}
+	case *ast.BlockStmt:
+		return shape(s.List)
+	case *ast.IfStmt:
+		out := wrap("if", shape(s.Body.List))
+		if s.Else != nil {
+			out = append(out, wrap("else", shapeStmt(s.Else))...)
+		}
+		return out
+	case *ast.RangeStmt:
+		x := src(s.X)
+		inner := shape(s.Body.List)
+		if _, isChan := chanNames[x]; isChan {
+			return append(append([]string{"range:" + x}, inner...), "end-range")
+		}
+		return wrap("loop", inner)
+	case *ast.ForStmt:
+		if s.Cond == nil {
+			return append(append([]string{"forever"}, shape(s.Body.List)...), "end-forever")
+		}
+		return wrap("loop", shape(s.Body.List))
+	case *ast.SelectStmt:
+		var out []string
+		for _, cc := range s.Body.List {
+			c := cc.(*ast.CommClause)
+			head := "default"
+			if c.Comm != nil {
+				hs := shapeStmt(c.Comm)
+				head = strings.Join(hs, " ")
+			}
+			out = append(out, "case("+head+")["+strings.Join(shape(c.Body), " ")+"]")
+		}
+		return append(append([]string{"select"}, out...), "end-select")
+	case *ast.SwitchStmt:
+		return wrap("switch", shape(s.Body.List))
+	case *ast.CaseClause:
+		return shape(s.Body)
+	case *ast.LabeledStmt:
+		return shapeStmt(s.Stmt)
+	}
+	return nil
+}
+
+var chanNames = map[string]bool{}
 
 func poolFacts(f *ast.File) PoolFacts {
 	var pf PoolFacts
@@ -725,6 +839,16 @@ func poolFacts(f *ast.File) PoolFacts {
 	if fd == nil {
 		die("Initialize not found")
 	}
+	ast.Inspect(fd.Body, func(n ast.Node) bool {
+		if a, ok := n.(*ast.AssignStmt); ok && len(a.Lhs) == 1 && len(a.Rhs) == 1 {
+			if c, ok := a.Rhs[0].(*ast.CallExpr); ok && callName(c) == "make" {
+				if _, ok := c.Args[0].(*ast.ChanType); ok {
+					chanNames[src(a.Lhs[0])] = true
+				}
+			}
+		}
+		return true
+	})
 	for _, st := range fd.Body.List {
 		switch s := st.(type) {
 		case *ast.AssignStmt:
@@ -732,6 +856,7 @@ func poolFacts(f *ast.File) PoolFacts {
 				name := src(s.Lhs[0])
 				if name == "numWorkers" {
 					pf.NumWorkers = src(s.Rhs[0])
+					pf.NumWorkersNat, _ = strconv.Atoi(pf.NumWorkers)
 				}
 				if c, ok := s.Rhs[0].(*ast.CallExpr); ok && callName(c) == "make" {
 					if _, ok := c.Args[0].(*ast.ChanType); ok {
@@ -749,6 +874,7 @@ func poolFacts(f *ast.File) PoolFacts {
 						}
 						return true
 					})
+					pf.Worker = shape(fl.Body.List)
 					pf.Order = append(pf.Order, "define-worker")
 				}
 			}
@@ -761,8 +887,10 @@ func poolFacts(f *ast.File) PoolFacts {
 			switch {
 			case strings.Contains(body, "fileChan <- file"):
 				pf.Order = append(pf.Order, "send-files")
+				pf.Sender = shapeStmt(s)
 			case src(s.X) == "resultChan":
 				pf.Order = append(pf.Order, "collect")
+				pf.Collect = shapeStmt(s)
 			}
 		case *ast.ExprStmt:
 			if src(s.X) == "close(fileChan)" {
@@ -776,8 +904,14 @@ func poolFacts(f *ast.File) PoolFacts {
 			switch {
 			case strings.Contains(body, "wg.Wait()"):
 				pf.Order = append(pf.Order, "start-closer")
+				if fl, ok := s.Call.Fun.(*ast.FuncLit); ok {
+					pf.Closer = shape(fl.Body.List)
+				}
 			case strings.Contains(body, "<-statusChan"):
 				pf.Order = append(pf.Order, "start-status")
+				if fl, ok := s.Call.Fun.(*ast.FuncLit); ok {
+					pf.Status = shape(fl.Body.List)
+				}
 			default:
 				pf.Order = append(pf.Order, "go-other")
 			}
@@ -970,7 +1104,13 @@ func main() {
 	}
 	b.WriteString("]\n")
 	b.WriteString("def poolOrder : List String := " + leanStrList(pf.Order) + "\n")
-	b.WriteString("def poolWorkerSends : List String := " + leanStrList(pf.WorkerSends) + "\n\n")
+	b.WriteString("def poolWorkerSends : List String := " + leanStrList(pf.WorkerSends) + "\n")
+	fmt.Fprintf(&b, "def poolNumWorkersNat : Nat := %d\n", pf.NumWorkersNat)
+	b.WriteString("def poolWorkerShape : List String := " + leanStrList(pf.Worker) + "\n")
+	b.WriteString("def poolSenderShape : List String := " + leanStrList(pf.Sender) + "\n")
+	b.WriteString("def poolStatusShape : List String := " + leanStrList(pf.Status) + "\n")
+	b.WriteString("def poolCloserShape : List String := " + leanStrList(pf.Closer) + "\n")
+	b.WriteString("def poolCollectShape : List String := " + leanStrList(pf.Collect) + "\n\n")
 
 	// json keys
 	b.WriteString("def bundleProducerTop : List String := " + leanStrList(structTags(gens, "CQLFiles")) + "\n")
